@@ -624,7 +624,7 @@ Definition equals_step (r : efns) (order : list str -> list str) (a0 b0 : value)
   if is_null a && is_null b then Ok v_true else
   if is_null a || is_null b then Ok v_false else
   if negb (has_wholly_known_type (vty a) (vp a)) || negb (has_wholly_known_type (vty b) (vp b)) then
-    (if negb (conforms (vty a) (vty b)) && negb (conforms (vty b) (vty a)) then Ok v_false else Ok unk_not_null)
+    (if negb (may_become_equal (vty a) (vty b)) then Ok v_false else Ok unk_not_null)   (* fix: commit ac6172c (was: conformance in one direction at a time) *)
   else
   if negb (ty_equals (vty a) (vty b)) then Ok v_false else
   let t := vty a in
